@@ -1195,9 +1195,9 @@ func convertAnyToString(value any, datatype string) (str string, err error) {
 	switch v := value.(type) {
 	case float64:
 		// https://www.w3.org/TR/2014/REC-json-ld-api-20140116/#data-round-tripping
-		str = ld.GetCanonicalDouble(v)
+		str = float64ToString(v, datatype)
 	case float32:
-		str = ld.GetCanonicalDouble(float64(v))
+		str = float64ToString(float64(v), datatype)
 	case string:
 		str = fmt.Sprintf("%v", v)
 	case int64, int32, int16, int8, int, bool:
@@ -1206,6 +1206,17 @@ func convertAnyToString(value any, datatype string) (str string, err error) {
 		return str, ErrorUnsupportedType
 	}
 	return str, nil
+}
+
+// float64ToString spells a number the way the JSON-LD to RDF conversion
+// spells it in the dataset the tree is built from: a whole number as an
+// integer with all its digits, unless the datatype is xsd:double, and
+// anything else as a canonical double.
+func float64ToString(v float64, datatype string) string {
+	if datatype != ld.XSDDouble && v == float64(int64(v)) {
+		return strconv.FormatInt(int64(v), 10)
+	}
+	return ld.GetCanonicalDouble(v)
 }
 
 type allInts interface {
